@@ -305,13 +305,19 @@ def concrete_playback(h, log, workdir):
     except subprocess.TimeoutExpired:
         return None, "", "concrete playback generation timed out"
     out = p.stdout
-    m = re.search(r"```\n?(#\[test\].*?)```", out, re.S)
-    if not m:
-        m = re.search(r"(#\[test\]\s*\nfn kani_concrete_playback_.*?\n\})", out, re.S)
-    if not m:
+    # Kani prints one unit test per failed check; each is tried until one misbehaves natively
+    tests = re.findall(r"```\n?(#\[test\].*?)```", out, re.S)
+    if not tests:
+        tests = re.findall(r"(#\[test\]\s*\nfn kani_concrete_playback_.*?\n\})", out, re.S)
+    if not tests:
         return None, "", "Kani produced no concrete playback test (non-assertion failure or unsupported input type)"
-    test_src = m.group(1).strip()
-    tname = re.search(r"fn (kani_concrete_playback_\w+)", test_src).group(1)
+    uniq, seen_names = [], set()
+    for t in tests:
+        nm = re.search(r"fn (kani_concrete_playback_\w+)", t)
+        if nm and nm.group(1) not in seen_names:
+            seen_names.add(nm.group(1))
+            uniq.append((nm.group(1), t.strip()))
+    test_src = "\n\n".join(t for _, t in uniq)
     # scratch copy of the harness crate with the test appended to the harness's module
     if os.path.exists(workdir):
         shutil.rmtree(workdir)
@@ -321,18 +327,28 @@ def concrete_playback(h, log, workdir):
     modfile = os.path.join(workdir, "src", mod + ".rs")
     with open(modfile, "a") as f:
         f.write("\n\n" + test_src + "\n")
-    cmd = ["cargo", "kani", "playback", "-Z", "concrete-playback", "--", tname]
     env = dict(ENV, CARGO_TARGET_DIR=os.path.join(VERIF, ".scratch", "playback-target"))
-    try:
-        p = subprocess.run(cmd, cwd=workdir, env=env, stdout=subprocess.PIPE, stderr=subprocess.STDOUT,
-                           text=True, timeout=1800)
-    except subprocess.TimeoutExpired:
-        return None, test_src, "native playback timed out"
-    pout = p.stdout
+    last = ""
+    verdict = None
+    for tname, _t in uniq[:6]:
+        cmd = ["cargo", "kani", "playback", "-Z", "concrete-playback", "--", tname]
+        try:
+            p = subprocess.run(cmd, cwd=workdir, env=env, stdout=subprocess.PIPE, stderr=subprocess.STDOUT, text=True, timeout=1800)
+        except subprocess.TimeoutExpired:
+            last = "native playback timed out"
+            continue
+        pout = p.stdout
+        if re.search(r"test result: FAILED", pout) or "panicked at" in pout:
+            msg = re.search(r"panicked at (.*?)\n(.*?)\n", pout)
+            shutil.rmtree(workdir, ignore_errors=True)
+            return True, test_src, ("native run panicked: " + (msg.group(0).strip() if msg else ""))[:600]
+        if re.search(r"test result: ok", pout):
+            verdict = False
+            last = "native run of the counterexample passed (does not reproduce)"
+        else:
+            last = "native playback could not be built/run: " + pout[-800:]
     shutil.rmtree(workdir, ignore_errors=True)
-    if re.search(r"test result: FAILED", pout) or "panicked at" in pout:
-        msg = re.search(r"panicked at (.*?)\n(.*?)\n", pout)
-        return True, test_src, ("native run panicked: " + (msg.group(0).strip() if msg else ""))[:600]
-    if re.search(r"test result: ok", pout):
-        return False, test_src, "native run of the counterexample passed (does not reproduce)"
+    if verdict is False:
+        return False, test_src, last
+    pout = last
     return None, test_src, "native playback could not be built/run: " + pout[-800:]
